@@ -547,19 +547,19 @@ static int unit_op (int n, char **t, int *a)
       unlink_string_svalue (slot (a[1]));
       slot (a[1])->u.string[a[2]] = t[3][0];
     }
-  else if (!strcmp (t[0], "inp"))
+  else if (!strcmp (t[0], "inp") || !strcmp (t[0], "inpr"))
     {
       svalue_t fun, args[2];
       object_t *save_co = current_object, *save_cg = command_giver;
       fun.type = T_STRING;
       fun.subtype = STRING_CONSTANT;
-      fun.u.string = "icb";
+      fun.u.string = t[0][3] == 'r' ? "icb2" : "icb";
       args[0] = *slot (a[2]);
       args[1] = *slot (a[3]);
       current_object = hobj (a[1]);
       command_giver = user_ob;
       /* odd slot sum: get_char() - the same bookkeeping in a second copy of the code */
-      if (!(((a[2] + a[3]) & 1) ? get_char (&fun, 0, 2, args) : input_to (&fun, 0, 2, args)))
+      if (!((((a[2] + a[3]) & 1) && t[0][3] != 'r') ? get_char (&fun, 0, 2, args) : input_to (&fun, 0, 2, args)))
         vh_out ("harness-error input_to refused");
       current_object = save_co;
       command_giver = save_cg;
@@ -690,7 +690,7 @@ static int applicable (int n, char **t, int *a)
         return n == 4 && a[2] >= 0 && (size_t) a[2] < SVALUE_STRLEN (sv) && strlen (t[3]) == 1;
       return n == 5 && lpc_mode && a[2] >= 0 && a[2] <= a[3] && (size_t) a[3] < SVALUE_STRLEN (sv) && strlen (t[4]) > 0;
     }
-  if (!strcmp (op, "inp"))
+  if (!strcmp (op, "inp") || !strcmp (op, "inpr"))
     return n == 4 && objok (a[1]) && !objkind[a[1]] && SL (a[2]) && SL (a[3]) && !input_pending && user_ob;
   if (!strcmp (op, "input"))
     return input_pending;
@@ -863,7 +863,7 @@ static int c06_cmd (char *line)
       {"fill", {1, 3, 0}}, {"assign", {1, 2, 0}}, {"aset", {1, 3, 0}}, {"aget", {1, 2, 0}},
       {"mset", {1, 2, 3}}, {"mdel", {1, 2, 0}}, {"push", {1, 0, 0}}, {"popto", {1, 0, 0}},
       {"setvar", {3, 0, 0}}, {"getvar", {1, 0, 0}}, {"oref", {1, 0, 0}}, {"call", {4, 5, 0}},
-      {"sent", {3, 4, 0}}, {"inp", {2, 3, 0}}, {"sappend", {1, 0, 0}}, {"sjoin", {1, 2, 0}}, {"sadd", {1, 2, 0}},
+      {"sent", {3, 4, 0}}, {"inp", {2, 3, 0}}, {"inpr", {2, 3, 0}}, {"sappend", {1, 0, 0}}, {"sjoin", {1, 2, 0}}, {"sadd", {1, 2, 0}},
       {"schar", {1, 0, 0}}, {"srange", {1, 0, 0}}, {"err", {1, 2, 0}}, {"efun", {2, 3, 0}}, {"fefun", {2, 3, 0}},
       {0, {0, 0, 0}}
     };
@@ -1028,7 +1028,8 @@ static int c06_cmd (char *line)
           pop_context (&econ);
           command_giver = 0;
         }
-      input_pending = 0;
+      /* the callback may have installed a new input_to (icb2) */
+      input_pending = user_ob && user_ob->interactive && user_ob->interactive->input_to != 0;
       applied = 1;
     }
   else if (!strcmp (t[0], "sweep"))
@@ -1065,7 +1066,7 @@ static int c06_cmd (char *line)
         cg = hobj (a[2]);
       else if (!strcmp (t[0], "rmcalln"))
         snprintf (buf, sizeof buf, "rmcalln %d %d", a[1], call_owner[a[1]]);
-      else if (!strcmp (t[0], "inp"))
+      else if (!strcmp (t[0], "inp") || !strcmp (t[0], "inpr"))
         cg = user_ob;
       command_giver = cg;
       rc = vh_apply_str (main_ob, "do_op", 1, w, 0, 0);
@@ -1124,7 +1125,7 @@ static int c06_cmd (char *line)
         if (sent_used[k] && sent_owner[k] == a[1])
           sent_used[k] = 0;
     }
-  else if (!strcmp (t[0], "inp"))
+  else if (!strcmp (t[0], "inp") || !strcmp (t[0], "inpr"))
     input_pending = 1;
   else if (!strcmp (t[0], "call"))
     {
